@@ -7,7 +7,7 @@
 //!      | err:read consumed=<n> | err:opcode consumed=<n> | err:other consumed=<n>
 //! c10_new <opcode> h<payload>     -> some:<digest> | none        (Frame::new + serialisation)
 //! c10_msg <0|1> h<payload>        -> text=<0|1> <digest>         (Message::new / new_binary, then to_frame)
-//! digest of a byte string: full hex up to 48 bytes, else <len>:<fnv1a32>:<first 16 bytes>:<last 8 bytes>
+//! digest of a byte string: full hex up to 48 bytes, else <len>:<value mod 2^32-5>:<first 16 bytes>:<last 8 bytes>
 use crate::util::*;
 use humphrey_ws::error::WebsocketError;
 use humphrey_ws::message::Message;
@@ -18,10 +18,10 @@ pub fn digest(b: &[u8]) -> String {
     if b.len() <= 48 {
         return format!("h{}", hex(b));
     }
-    let mut h: u32 = 0x811c9dc5;
+    // the byte string read as a big-endian number, modulo the prime 2^32 - 5
+    let mut h: u64 = 0;
     for x in b {
-        h ^= *x as u32;
-        h = h.wrapping_mul(16777619);
+        h = (h * 256 + *x as u64) % 4294967291;
     }
     format!("{}:{:08x}:{}:{}", b.len(), h, hex(&b[..16]), hex(&b[b.len() - 8..]))
 }
@@ -166,7 +166,7 @@ pub fn dispatch(name: &str, args: &[&str]) -> Option<String> {
         "c10_msg" => {
             let payload = unhex(args[1]);
             let m = if args[0] == "1" { Message::new_binary(&payload) } else { Message::new(&payload) };
-            let text = m.text().is_some() || (args[0] != "1" && std::str::from_utf8(&payload).is_ok());
+            let text = m.text().is_some();
             Some(format!("text={} {}", b(text), digest(&m.to_frame())))
         }
         _ => None,
